@@ -596,5 +596,89 @@ theorem aspectRatio_eq (t : Triangle ℝ) (hnd : ((t.b - t.a).cross (t.c - t.a))
   rw [pick, pick, pick]
   num_real
 
+/-! ## all classes of `test_point` -/
+
+/-- the barycentric coordinates as `test_point` computes them -/
+def tpAlpha (t : Triangle ℝ) (p : V3 ℝ) : ℝ :=
+  ((t.c - t.a).dot (t.c - t.a) * (t.b - t.a).dot (p - t.a) - (t.c - t.a).dot (t.b - t.a) * (t.c - t.a).dot (p - t.a))
+    / ((t.b - t.a).dot (t.b - t.a) * (t.c - t.a).dot (t.c - t.a) - (t.c - t.a).dot (t.b - t.a) * (t.c - t.a).dot (t.b - t.a))
+def tpBeta (t : Triangle ℝ) (p : V3 ℝ) : ℝ :=
+  (-((t.c - t.a).dot (t.b - t.a)) * (t.b - t.a).dot (p - t.a) + (t.b - t.a).dot (t.b - t.a) * (t.c - t.a).dot (p - t.a))
+    / ((t.b - t.a).dot (t.b - t.a) * (t.c - t.a).dot (t.c - t.a) - (t.c - t.a).dot (t.b - t.a) * (t.c - t.a).dot (t.b - t.a))
+
+/-- `test_point` as a function of those coordinates and the tolerance `T = 100·EPSILON` -/
+theorem tp_eval (t : Triangle ℝ) (p : V3 ℝ) :
+    t.testPoint p =
+      (let α := tpAlpha t p; let β := tpBeta t p; let w := 1 - α - β; let T : ℝ := tiny100
+       if -T ≤ α ∧ -T ≤ β ∧ -T ≤ w then
+         if α ≤ T ∧ β ≤ T then PointInTriangle.vertexA
+         else if α ≤ T ∧ w ≤ T then .vertexC
+         else if β ≤ T ∧ w ≤ T then .vertexB
+         else if α ≤ T then .edgeAC
+         else if w ≤ T then .edgeBC
+         else if β ≤ T then .edgeAB
+         else .inside
+       else .outside) := by
+  unfold Triangle.testPoint tpAlpha tpBeta
+  simp only [real_ge_dec, real_le_dec, Bool.and_eq_true, decide_eq_true_eq]
+  num_real
+  simp only [and_assoc]
+
+/-- **every class of `test_point`, in terms of the true barycentric coordinates** (`tp_bary`) and the documented tolerance `T`:
+    a coordinate counts as zero when it is within `±T`, as positive when it exceeds `T`, and the point is outside as soon as a
+    coordinate is below `−T` -/
+theorem tp_classes (t : Triangle ℝ) (p : V3 ℝ) :
+    let α := tpAlpha t p; let β := tpBeta t p; let w := 1 - α - β; let T : ℝ := tiny100
+    (|α| ≤ T → |β| ≤ T → t.testPoint p = .vertexA) ∧
+    (|β| ≤ T → |w| ≤ T → t.testPoint p = .vertexB) ∧
+    (|α| ≤ T → |w| ≤ T → t.testPoint p = .vertexC) ∧
+    (|β| ≤ T → T < α → T < w → t.testPoint p = .edgeAB) ∧
+    (|w| ≤ T → T < α → T < β → t.testPoint p = .edgeBC) ∧
+    (|α| ≤ T → T < β → T < w → t.testPoint p = .edgeAC) ∧
+    (T < α → T < β → T < w → t.testPoint p = .inside) ∧
+    (α < -T ∨ β < -T ∨ w < -T → t.testPoint p = .outside) := by
+  intro α β w T
+  have hT : (0 : ℝ) < T := by simp only [T, tiny100]; num_real; norm_num
+  have hT1 : T < 1 / 4 := by simp only [T, tiny100]; num_real; norm_num
+  have hw : w = 1 - α - β := rfl
+  rw [tp_eval]
+  simp only []
+  refine ⟨?_, ?_, ?_, ?_, ?_, ?_, ?_, ?_⟩
+  · intro ha hb
+    obtain ⟨a1, a2⟩ := abs_le.1 ha
+    obtain ⟨b1, b2⟩ := abs_le.1 hb
+    rw [if_pos ⟨a1, b1, by linarith⟩, if_pos ⟨a2, b2⟩]
+  · intro hb hw'
+    obtain ⟨b1, b2⟩ := abs_le.1 hb
+    obtain ⟨w1, w2⟩ := abs_le.1 hw'
+    have : T < α := by linarith
+    rw [if_pos ⟨by linarith, b1, w1⟩, if_neg (by intro h; linarith [h.1]), if_neg (by intro h; linarith [h.1]),
+      if_pos ⟨b2, w2⟩]
+  · intro ha hw'
+    obtain ⟨a1, a2⟩ := abs_le.1 ha
+    obtain ⟨w1, w2⟩ := abs_le.1 hw'
+    have : T < β := by linarith
+    rw [if_pos ⟨a1, by linarith, w1⟩, if_neg (by intro h; linarith [h.2]), if_pos ⟨a2, w2⟩]
+  · intro hb ha hw'
+    obtain ⟨b1, b2⟩ := abs_le.1 hb
+    rw [if_pos ⟨by linarith, b1, by linarith⟩, if_neg (by intro h; linarith [h.1]), if_neg (by intro h; linarith [h.1]),
+      if_neg (by intro h; linarith [h.2]), if_neg (by linarith), if_neg (by linarith), if_pos b2]
+  · intro hw' ha hb
+    obtain ⟨w1, w2⟩ := abs_le.1 hw'
+    rw [if_pos ⟨by linarith, by linarith, w1⟩, if_neg (by intro h; linarith [h.1]), if_neg (by intro h; linarith [h.1]),
+      if_neg (by intro h; linarith [h.1]), if_neg (by linarith), if_pos w2]
+  · intro ha hb hw'
+    obtain ⟨a1, a2⟩ := abs_le.1 ha
+    rw [if_pos ⟨a1, by linarith, by linarith⟩, if_neg (by intro h; linarith [h.2]), if_neg (by intro h; linarith [h.2]),
+      if_neg (by intro h; linarith [h.1]), if_pos a2]
+  · intro ha hb hw'
+    rw [if_pos ⟨by linarith, by linarith, by linarith⟩, if_neg (by intro h; linarith [h.1]),
+      if_neg (by intro h; linarith [h.1]), if_neg (by intro h; linarith [h.1]), if_neg (by linarith), if_neg (by linarith),
+      if_neg (by linarith)]
+  · intro h
+    rw [if_neg]
+    rintro ⟨h1, h2, h3⟩
+    rcases h with h | h | h <;> linarith
+
 end
 end G3d.C19
